@@ -192,11 +192,99 @@ func (st *State) check(name, kind string, t Term, desc string, props []string, p
 		ex.cur.Obls = append(ex.cur.Obls, o)
 		return
 	}
-	o.Seq = st.nobl
-	st.nobl++
-	st.sc.emit("(push 1)\n(echo \"OBL %d %s\")\n(assert (not %s))\n(check-sat)\n(pop 1)", o.Seq, o.Name, t.S)
+	// a conjunction is checked conjunct by conjunct (each one is an instance of the same named
+	// obligation): E-matching handles small goals far more reliably than one big disjunction of negations
+	parts := splitConjuncts(t.S, 0)
+	for _, p := range parts {
+		oi := *o
+		oi.Term = p
+		oi.Seq = st.nobl
+		st.nobl++
+		st.sc.emit("(push 1)\n(echo \"OBL %d %s\")\n(assert (not %s))\n(check-sat)\n(pop 1)", oi.Seq, oi.Name, p)
+		ex.cur.Obls = append(ex.cur.Obls, &oi)
+	}
 	st.sc.assert(t)
-	ex.cur.Obls = append(ex.cur.Obls, o)
+}
+
+// splitConjuncts splits an SMT term into conjuncts, pushing through (=> A (and ..)) and
+// (forall (..) body).
+func splitConjuncts(t string, depth int) []string {
+	t = strings.TrimSpace(t)
+	if depth > 60 {
+		return []string{t}
+	}
+	if strings.HasPrefix(t, "(and ") {
+		var out []string
+		for _, p := range sexprArgs(t[5 : len(t)-1]) {
+			out = append(out, splitConjuncts(p, depth+1)...)
+		}
+		return out
+	}
+	if strings.HasPrefix(t, "(=> ") {
+		args := sexprArgs(t[4 : len(t)-1])
+		if len(args) == 2 {
+			rhs := splitConjuncts(args[1], depth+1)
+			if len(rhs) > 1 {
+				var out []string
+				for _, r := range rhs {
+					out = append(out, "(=> "+args[0]+" "+r+")")
+				}
+				return out
+			}
+		}
+		return []string{t}
+	}
+	if strings.HasPrefix(t, "(forall ") {
+		args := sexprArgs(t[8 : len(t)-1])
+		if len(args) == 2 && !strings.HasPrefix(args[1], "(!") {
+			body := splitConjuncts(args[1], depth+1)
+			if len(body) > 1 {
+				var out []string
+				for _, b := range body {
+					out = append(out, "(forall "+args[0]+" "+b+")")
+				}
+				return out
+			}
+		}
+		return []string{t}
+	}
+	return []string{t}
+}
+
+// sexprArgs splits a string of juxtaposed s-expressions / atoms at top level.
+func sexprArgs(t string) []string {
+	var out []string
+	depth := 0
+	start := -1
+	for i := 0; i < len(t); i++ {
+		c := t[i]
+		switch {
+		case c == '(':
+			if depth == 0 && start < 0 {
+				start = i
+			}
+			depth++
+		case c == ')':
+			depth--
+			if depth == 0 {
+				out = append(out, t[start:i+1])
+				start = -1
+			}
+		case c == ' ' || c == '\n' || c == '\t':
+			if depth == 0 && start >= 0 {
+				out = append(out, t[start:i])
+				start = -1
+			}
+		default:
+			if depth == 0 && start < 0 {
+				start = i
+			}
+		}
+	}
+	if start >= 0 {
+		out = append(out, t[start:])
+	}
+	return out
 }
 
 func (st *State) trivially(name, kind, desc string) {
